@@ -291,6 +291,16 @@ fn has_cfg_test(attrs: &[syn::Attribute]) -> bool {
     })
 }
 
+// an item compiled only for tests: `#[cfg(test)]` (but not `#[cfg(not(test))]`)
+fn is_cfg_test_only(attrs: &[syn::Attribute]) -> bool {
+    attrs.iter().any(|a| {
+        a.path().is_ident("cfg") && {
+            let t: String = ts(&a.meta).chars().filter(|c| !c.is_whitespace()).collect();
+            t.contains("test") && !t.contains("not(test")
+        }
+    })
+}
+
 impl Indexer {
     fn fn_json(
         &self,
@@ -358,7 +368,7 @@ impl Indexer {
             "name": name,
             "path": name,
             "mods": self.mods,
-            "in_test": self.cfg_test_depth > 0,
+            "in_test": self.cfg_test_depth > 0 || is_cfg_test_only(attrs),
             "span": rng(whole),
             "attrs": attrs_json(attrs),
             "vis": vis,
